@@ -1,8 +1,8 @@
+\* Negative configuration: the seeded fault "noreport" of Persist.tla must violate ReportsRunning.
 SPECIFICATION Spec
 CONSTANTS
     Deep = FALSE
     Bug = "noreport"
     DoEmit = FALSE
-INVARIANTS WriteThrough ReportsRunning TypeOK
-PROPERTIES RefusedChangesNothing RestartRestores CrashAtomic AcceptedEverywhere
+INVARIANTS ReportsRunning
 VIEW View
